@@ -481,6 +481,59 @@ func init() {
 					}
 					loadOneFile(c, src, mustFail)
 				}})
+			// one file rewritten in place with faulty bytes of the same length (same path, same modification time), loaded
+			// again in the same process: the fault is found
+			rewrites := [][2]string{{"text {{ 1 }} ok", "text {{ # }} ok"}, {"@if(true)x@end", "@if(true)x@enx"}, {"{{ \"abc\" }}", "{{ \"abc  }}"}, {"a{{-- c --}}b", "a{{-- c -- }b"}, {"@each(v in [1])x@end", "@each(v in [1)]x@end"},
+				{"{{ {a: 1}.a }}", "{{ {a: 1,.a }}"}, {"<p>plain</p>", "<p>{{ ~ }}</p>"}}
+			secs = append(secs, core.Section{Name: "files-rewritten-in-place", Exhaustive: true, N: len(rewrites) * 2,
+				Run: func(c *core.Ctx, i int) {
+					rw := rewrites[i/2]
+					if i%2 == 1 {
+						// the file is a layout or a component that a valid page uses
+						for _, f := range []string{"layouts/l.tw", "components/c.tw"} {
+							dir := "c08rw"
+							os.RemoveAll(dir)
+							page := "@use(\"~l\")@insert(\"b\", 1)"
+							other := map[string]string{"layouts/l.tw": "<@reserve(\"b\")>" + rw[0]}
+							if f == "components/c.tw" {
+								page = "@component(\"~c\")"
+								other = map[string]string{"components/c.tw": rw[0]}
+							}
+							other["page.tw"] = page
+							if err := writeFiles(dir, other); err != nil {
+								c.Inconclusive(err.Error())
+								return
+							}
+							os.Chtimes(filepath.Join(dir, f), fixedMtime, fixedMtime)
+							textwire.VerifResetConfig()
+							var err error
+							var tpl *textwire.Template
+							c.Eval(2)
+							if c.Guard(func() { tpl, err = textwire.NewTemplate(&config.Config{TemplateDir: dir, TemplateExt: ".tw"}) }) {
+								return
+							}
+							if err != nil || tpl == nil {
+								c.Violation("valid-tree-rejected", fmt.Sprintf("%v", err), map[string]any{"files": describeFiles(other)})
+								return
+							}
+							bad := strings.Replace(other[f], rw[0], rw[1], 1)
+							os.WriteFile(filepath.Join(dir, f), []byte(bad), 0o644)
+							os.Chtimes(filepath.Join(dir, f), fixedMtime, fixedMtime)
+							if c.Guard(func() { tpl, err = textwire.NewTemplate(&config.Config{TemplateDir: dir, TemplateExt: ".tw"}) }) {
+								return
+							}
+							c.Nontrivial(fmt.Sprint("rewritten", f, rw))
+							if err == nil {
+								c.Violation("accepted-file:rewritten-in-place", fmt.Sprintf("%s was rewritten in place from %q to %q (same length, same modification time) and the tree loaded without an error", f, other[f], bad), map[string]any{"file": f})
+							}
+							os.RemoveAll(dir)
+						}
+						return
+					}
+					loadOneFile(c, rw[0], "")
+					loadOneFile(c, rw[1], "a construct the rewrite broke")
+					loadOneFile(c, rw[0], "")
+				}})
 			// several goroutines lex and parse at once, every input with words never seen before in the process
 			secs = append(secs, core.Section{Name: "concurrent-parsing", N: 16,
 				Run: func(c *core.Ctx, i int) {
@@ -555,6 +608,9 @@ func loadOneFile(c *core.Ctx, src string, mustFail string) {
 		c.Inconclusive("cannot write scratch file: " + err.Error())
 		return
 	}
+	// (one path and one modification time for every content: what is known about a file from an earlier load says nothing
+	// about this one)
+	os.Chtimes(filepath.Join(dir, "page.tw"), fixedMtime, fixedMtime)
 	c.Input(map[string]any{"file": "page.tw", "content": src})
 	textwire.VerifResetConfig()
 	c.Eval(1)
